@@ -367,6 +367,24 @@ var ctx = context.Background()
 
 func noBackoff(context.Context) error { return nil }
 
+// scanAll: the feed-back iteration of Consume from OffsetOldest to NextOffset
+func scanAll(l klevdb.Log) ([]klevdb.Message, error) {
+	var all []klevdb.Message
+	off := klevdb.OffsetOldest
+	for i := 0; i < 1000000; i++ {
+		next, ms, err := l.Consume(off, 32)
+		if err != nil {
+			return nil, err
+		}
+		if len(ms) == 0 {
+			return all, nil
+		}
+		all = append(all, ms...)
+		off = next
+	}
+	return nil, fmt.Errorf("scan does not end")
+}
+
 func utime(t int64) time.Time { return time.UnixMicro(t).UTC() }
 
 func params(st *hstate) index.Params {
@@ -385,7 +403,7 @@ var needsLog = map[string]bool{"close": true, "pub": true, "pubbig": true, "next
 	"cons": true, "consk": true, "get": true, "getk": true, "gett": true, "offk": true, "offt": true, "del": true,
 	"delm": true, "size": true, "findo": true, "findc": true, "finds": true, "finda": true, "fupd": true, "fdel": true,
 	"trimo": true, "trimc": true, "trims": true, "trima": true, "cupd": true, "cdel": true, "trim1o": true,
-	"trim1c": true, "trim1s": true, "trim1a": true, "c1upd": true, "c1del": true, "backup": true, "probe": true}
+	"trim1c": true, "trim1s": true, "trim1a": true, "c1upd": true, "c1del": true, "backup": true, "probe": true, "compact": true}
 
 func step(st *hstate, f []string) []string {
 	l := st.log
@@ -551,6 +569,32 @@ func step(st *hstate, f []string) []string {
 			return []string{fmt.Sprintf("err %s %d %s%s", errClass(err), sz, versOf(sv, ms), fmtMsgs(ms))}
 		}
 		return []string{fmt.Sprintf("ok %d %s%s", sz, versOf(sv, ms), fmtMsgs(ms))}
+	case "compact":
+		// compact.go Compact with cut-offs later than every message of the generated histories (their times are a
+		// few hundred microseconds after 1970).  Compact reports no messages: what it removed is read off two scans.
+		sv := segVers(st.dir)
+		before, err := scanAll(l)
+		if err != nil {
+			return e(err)
+		}
+		if err := klevdb.Compact(ctx, l, time.Hour, noBackoff); err != nil {
+			return e(err)
+		}
+		after, err := scanAll(l)
+		if err != nil {
+			return e(err)
+		}
+		left := map[int64]bool{}
+		for _, m := range after {
+			left[m.Offset] = true
+		}
+		var ms []klevdb.Message
+		for _, m := range before {
+			if !left[m.Offset] {
+				ms = append(ms, m)
+			}
+		}
+		return []string{fmt.Sprintf("ok - %s%s", versOf(sv, ms), fmtMsgs(ms))}
 	case "trim1o", "trim1c", "trim1s", "trim1a", "c1upd", "c1del":
 		var ms []klevdb.Message
 		var sz int64
